@@ -51,6 +51,7 @@ type interpreter struct {
 	callDepth          int
 	syncSt             *syncState
 	lastNow            value
+	fsSt               *fsState
 }
 
 type deferred struct {
